@@ -27,7 +27,7 @@ BUDGET_S = {"quick": 90, "thorough": 900}
 NUM_BIN = ["+", "-", "*", "/", "**", "%"]
 CMP = ["<", ">", "<=", ">=", "==", "!="]
 AGG = ["sum", "prod", "mean", "median", "stddev", "size", "rank"]
-VALSETS = [dict(c1=7.0, c2=3.0, c3=2.0, s1=4.0, v1=5.5), dict(c1=1.5, c2=6.0, c3=3.0, s1=2.5, v1=9.25)]
+VALSETS = [dict(c1=7.0, c2=3.0, c3=2.0, s1=4.0, v1=5.5, w1=2.75, w2=-1.25), dict(c1=1.5, c2=6.0, c3=3.0, s1=2.5, v1=9.25, w1=0.5, w2=4.0)]
 VECS = dict(vec=[3.0, -1.5, 4.0], mat=[[1.0, 2.5], [-3.0, 4.0]])
 T0, DT = 1.0, 0.5
 
@@ -114,7 +114,7 @@ def rand_tree(rng, depth, typ="n"):
         if typ == "n":
             r = rng.random()
             if r < 0.5:
-                return ["ref", rng.choice(["c1", "c2", "c3", "v1", "s1"])]
+                return ["ref", rng.choice(["c1", "c2", "c3", "v1", "s1", "w1", "w2"])]
             if r < 0.8:
                 return ["num", rng.choice([0.5, 1.25, 2.0, 3.0, 6.5, -1.5, 10.0])]
             if r < 0.9:
@@ -148,6 +148,16 @@ def bool_arith_cases():
                 cases.append(dict(kind="d2", key="bool-arith/%s/%s" % (f, op), tree=["bin", op, l, r], vals=0))
         cases.append(dict(kind="d2", key="bool-arith/%s/scaled" % f, tree=["bin", "*", c_true, ["num", 3.0]], vals=1))
         cases.append(dict(kind="d2", key="bool-arith/%s/sum3" % f, tree=["bin", "+", ["bin", "+", c_true, c_mixed], c_true], vals=1))
+    # comparisons of plain elements whose VALUES are numpy scalars (converters defined by exp / sin), used as numbers
+    W1, W2 = ["ref", "w1"], ["ref", "w2"]
+    for vs in (0, 1):
+        cmps = [["cmp", ">", W1, ["num", 1.0]], ["cmp", ">", W2, ["num", 1.0]], ["cmp", "<", W1, W2], ["cmp", ">=", W2, ["ref", "c1"]], ["cmp", "<", W2, ["num", 100.0]], ["cmp", "<", W1, ["num", 100.0]]]
+        for i, l in enumerate(cmps):
+            for r in cmps[i:]:
+                for op in ("+", "-", "*"):
+                    cases.append(dict(kind="d2", key="bool-arith/numpy-valued-elements/%s" % op, tree=["bin", op, l, r], vals=vs))
+            cases.append(dict(kind="d2", key="bool-arith/numpy-valued-elements/neg", tree=["bin", "-", ["ref", "c1"], ["neg", l]], vals=vs))
+            cases.append(dict(kind="d2", key="bool-arith/numpy-valued-elements/in-diff", tree=["bin", "-", ["ref", "c1"], ["bin", "+", l, cmps[(i + 1) % len(cmps)]]], vals=vs))
     return cases
 
 
@@ -225,6 +235,12 @@ def build_model(vals):
         E[n].equation = vals[n]
     E["v1"] = m.converter("v1")
     E["v1"].equation = E["c2"] * 0.0 + vals["v1"]
+    # converters whose value comes out of a library function: the same number, but as a numpy scalar
+    from BPTK_Py import sd_functions as sd
+    E["w1"] = m.converter("w1")
+    E["w1"].equation = sd.exp(E["c3"] * 0.0) * vals["w1"]
+    E["w2"] = m.converter("w2")
+    E["w2"].equation = sd.sin(E["c3"] * 0.0) + vals["w2"]
     E["s1"] = m.stock("s1")
     E["s1"].initial_value = vals["s1"]
     E["vec"] = m.converter("vec")
